@@ -178,6 +178,7 @@ def canary(ctx, trace):
     def m_noloc(e): e['out']['hdr']['loc'] = dict(has=False, v=[])
     def m_clen(e): e['out']['hdr']['clen']['v'] = [57, 57]
     def m_map(e): e['out']['status'] = 400
+    def m_crange(e): e['out']['crp']['end'] += 1
     def m_nojson(e): e['out']['err'] = dict(json=False, code='')
     def m_code(e): e['out']['err']['code'] = 'NAME_UNKNOWN'
     def m_repo(e): e['out']['calls'][0]['repo'] = [70, 111, 111]
@@ -189,6 +190,7 @@ def canary(ctx, trace):
         ('reader-not-closed', lambda e: w(e, 'ManifestGet') and e['out']['status'] == 200, m_unclosed),
         ('location-missing', lambda e: w(e, 'StartUpload') and e['out']['status'] == 202, m_noloc),
         ('content-length', lambda e: w(e, 'BlobGet') and e['out']['status'] in (200, 206), m_clen),
+        ('content-range-inconsistent', lambda e: e['out']['status'] == 206, m_crange),
         ('404-as-400', lambda e: 'want' in e and e['want']['mode'] == 'reject' and e['out']['status'] == 404, m_map),
         ('error-body-not-json', lambda e: e['out']['status'] == 404, m_nojson),
         ('code-disagrees-with-status', lambda e: e['out']['status'] == 403, m_code),
